@@ -475,6 +475,18 @@ impl TestVal for Option<Piece> {
         }
     }
 }
+impl TestVal for [Piece; 9] {
+    const NAME: &'static str = "[Piece;9]";
+    fn gen(r: &mut Rng) -> Self {
+        std::array::from_fn(|_| Piece::new(r.next_u64() as u32 % 1000))
+    }
+}
+impl TestVal for (Nested, String, u64) {
+    const NAME: &'static str = "(Nested,String,u64)";
+    fn gen(r: &mut Rng) -> Self {
+        (<Nested as TestVal>::gen(r), gen_string(r), r.next_u64())
+    }
+}
 impl TestVal for Nested {
     const NAME: &'static str = "Nested";
     fn gen(r: &mut Rng) -> Self {
@@ -506,7 +518,7 @@ pub struct SerdeStats {
     pub de_faults_fired: u64,
     pub fresh_blocks_checked: u64,
     pub value_deserializer_cases: u64,
-    pub by_type: [u64; 6],
+    pub by_type: [u64; 8],
     pub distinct: std::collections::HashSet<u64>,
     pub samples: Vec<String>,
 }
@@ -538,7 +550,7 @@ fn ser_with<T: Serialize>(v: &T, k: u32) -> (Vec<Tok>, u32, Result<(), TapeError
 
 fn check_type<T: TestVal>(seed: u64, only_k: Option<(bool, u32)>, st: &mut SerdeStats, ctx: &dyn Fn(&str)) {
     reset_registry();
-    let ix = ["u32", "String", "(u8,String)", "Vec<Piece>", "Option<Piece>", "Nested"].iter().position(|n| *n == T::NAME).unwrap();
+    let ix = ["u32", "String", "(u8,String)", "Vec<Piece>", "Option<Piece>", "Nested", "[Piece;9]", "(Nested,String,u64)"].iter().position(|n| *n == T::NAME).unwrap();
     st.by_type[ix] += 1;
     st.values += 1;
     let make = || T::gen(&mut Rng::new(seed));
@@ -783,14 +795,16 @@ fn check_value_deserializers(seed: u64, st: &mut SerdeStats) {
 
 pub fn run_case(seed: u64, index: u64, only: Option<(bool, u32)>, st: &mut SerdeStats, ctx: &dyn Fn(&str)) {
     let s = mix(seed, index);
-    let which = (s % 6) as usize;
+    let which = (s % 8) as usize;
     match which {
         0 => check_type::<u32>(s, only, st, ctx),
         1 => check_type::<String>(s, only, st, ctx),
         2 => check_type::<(u8, String)>(s, only, st, ctx),
         3 => check_type::<Vec<Piece>>(s, only, st, ctx),
         4 => check_type::<Option<Piece>>(s, only, st, ctx),
-        _ => check_type::<Nested>(s, only, st, ctx),
+        5 => check_type::<Nested>(s, only, st, ctx),
+        6 => check_type::<[Piece; 9]>(s, only, st, ctx),
+        _ => check_type::<(Nested, String, u64)>(s, only, st, ctx),
     }
     if only.is_none() && index % 8 == 0 {
         check_value_deserializers(s, st);
